@@ -1,4 +1,5 @@
 import Pcore.Proofs.LatSoundMain
+import Pcore.Proofs.LatSfh
 set_option linter.unusedSimpArgs false
 /-!
 # C01 — Assignability is sound: what is assignable never admits a foreign instance
@@ -31,8 +32,11 @@ Full statement / proved / missing
     `C01_full_fails_iterable_elem` (inferred element type wider than any Variant member; known finding C01-iterable-inferred-elem)
     and `C01_full_fails_iterable_binary` (Iterable accepts Binary, whose values are not Iterable instances; C01-iterable-binary).
   - the exempt rule: `C01_sfh_witness` shows it is genuinely unsound when switched on (this is the stated exclusion, not a finding).
-    With the rule on the theorem excludes every pair that contains a Struct anywhere; the finer statement "only where a Struct
-    receives a Hash" is validated by the harness class `unsound-sfh`, not proved.
+    With the rule on `C01_sound_rule_on` excludes every pair that contains a Struct anywhere; the finer statement is
+    `C01_unsound_only_by_rule` — PROVED: for types without `Type[..]` / `Iterable[..]` (Structs included) the instance relation does
+    not depend on the rule (`inst_sfh`, through C02), and wherever the code is unsound the rule-off relation rejects the pair: every
+    unsound acceptance of the code is one that only the Struct-from-Hash arm grants.  (Not proved: a syntactic localisation such as the
+    harness class `unsound-sfh` = "A contains a Struct and B a Hash type".)
   - second-tier types (Callable, Runtime, Iterator, Like, Init, TypeReference, Timestamp, SemVer, URI) and user recursive aliases:
     not in the model; harness-side tests only.
 -/
@@ -127,5 +131,31 @@ theorem C01_sfh_witness :
     simp [asg, asgRecv, sameNullary, structReq, structSize, Rng.sub, Rng.all, isStringFamily], by
     simp [inst, instEntries, Rng.contains, Rng.all, I64.min, I64.max], by
     simp [inst, instStruct, hashGetW, keyIsStr]⟩
+
+/-- THE EXCLUSION IS THE ONLY SOURCE: for types without `Type[..]` / `Iterable[..]` (`Ty.Plain`, where the instance relation does not
+    depend on the rule: `inst_sfh`), wherever the code's assignability is unsound — `v` is an instance of `b` but not of `a` — the
+    relation with the exempt rule switched OFF does not accept `b`; i.e. every unsound acceptance of the code is one that only the
+    Struct-from-Hash rule grants (the two relations differ in that one arm of `StructType.IsAssignable` only). -/
+theorem C01_unsound_only_by_rule (cfg : Cfg) (hl : LowerLen cfg) (a b : Ty) (v : Val)
+    (pa : a.Plain) (pb : b.Plain) (wa : Ty.WF cfg a) (wb : Ty.WF cfg b) (us : b.US) (ok : v.OK) (tv : Val.TyOK cfg v)
+    (hi : inst cfg true b v = true) (hn : inst cfg true a v = false) : asg cfg false a b = false := by
+  cases h : asg cfg false a b with
+  | false => rfl
+  | true =>
+    have hi' : inst cfg false b v = true := by rw [← inst_sfh cfg b v wb pb ok]; exact hi
+    have := C01_sound_partial cfg false hl a b v (Ty.Plain.frag a.w a (Nat.le_refl _) pa) (Ty.Plain.frag b.w b (Nat.le_refl _) pb)
+      wa wb us ok tv h hi'
+    rw [← inst_sfh cfg a v wa pa ok, hn] at this
+    cases this
+
+/-- non-vacuity: the hypotheses hold on the witness of the exclusion (and there the rule-off relation indeed rejects) -/
+example : (Ty.struct [("a", false, .int Rng.all)]).Plain ∧ (Ty.hash .str (.int Rng.all) ⟨1, 1⟩).Plain ∧
+    inst idCfg true (.hash .str (.int Rng.all) ⟨1, 1⟩) (.hash [(.str "b", .int 1)]) = true ∧
+    inst idCfg true (.struct [("a", false, .int Rng.all)]) (.hash [(.str "b", .int 1)]) = false ∧
+    asg idCfg false (.struct [("a", false, .int Rng.all)]) (.hash .str (.int Rng.all) ⟨1, 1⟩) = false := by
+  refine ⟨by simp [Ty.Plain], by simp [Ty.Plain], ?_, ?_, ?_⟩
+  · simp [inst, instEntries, Rng.contains, Rng.all, I64.min, I64.max]
+  · simp [inst, instStruct, hashGetW, keyIsStr]
+  · simp [asg, asgRecv, sameNullary]
 
 end Pcore.Lat
